@@ -171,6 +171,9 @@ def other_structures_loaded_earlier():
             c = load()
             c.unit_cell_atoms()
             c.as_P1()
+            c.to_shelx_string()
+            c.to_cif_string()
+            c.to_poscar_string()
         except Exception:          # what these return is judged elsewhere (C10); here they only are the process's past
             pass
 
